@@ -241,6 +241,9 @@ func (s *Sched) addTimer(d time.Duration, period time.Duration, what string, fir
 	if d < 0 {
 		d = 0
 	}
+	if int64(d) > math.MaxInt64-s.now {
+		d = time.Duration(math.MaxInt64 - s.now) // "never" (time.NewTimer(math.MaxInt64))
+	}
 	s.tseq++
 	t := &timer{when: s.now + int64(d), seq: s.tseq, period: int64(period), fire: fire, what: what}
 	s.timers = append(s.timers, t)
